@@ -21,7 +21,7 @@ def run(ctx, replay=None):
                 "Surrogates: Surrogate.tla (TLC: all train/query/reload histories <= 4 over 2 phases) states that an untrained quantity is answered by the "
                 "same-named backend method and a trained one never touches the backend; every history of <= 3 operations over 3 models x 4 query methods x 2 "
                 "phases (+ seeded longer ones, log/linear, broadcast or not) is executed on a BinarySurrogate over a call-recording backend and validated by "
-                "Surrogate_Trace.tla, including reproduction of the training data and identical predictions after toJson/fromJson.")
+                "Surrogate_Trace.tla, including reproduction of the training data and identical predictions after toJson/fromJson; a MulticomponentSurrogate on a scripted ternary backend with negative cross-diffusivities is trained for diffusivity, queried at the training points and rebuilt from its file.")
     ctx.assumptions = ["scripted binary backend (the surrogate classes accept any thermodynamics object); multicomponent curvature surrogate not covered"]
     # ---- persistence
     ph = dict(name="beta", gamma=0.05)
@@ -81,6 +81,11 @@ def run(ctx, replay=None):
         # diffusivity is trained for the matrix phase: query it with the matrix phase name
         h2 = [(o[0], o[1], "alpha") if (o[0] == "train" and o[1] == "diffusivity") or (o[0] == "query" and o[1] in ("getInterdiffusivity", "getTracerDiffusivity")) else o for o in h]
         straces.append(D.surrogate_history(h2, logx=(i % 3 == 1), broadcast=(i % 2 == 0)))
+    # multicomponent surrogate (scripted ternary backend with negative cross-diffusivities): diffusivity trained, queried at the
+    # training points, rebuilt from its saved file
+    th_ = D.gen_ternary_histories()
+    hist = hist + [[("ternary",) + tuple(o) for o in h] for h in th_]
+    straces += [D.ternary_surrogate_history(h) for h in th_]
     reached, res = T.validate("Surrogate_Trace", ["CONSTANTS", '  Phases = {"alpha", "beta", "gamma"}', "  MaxOps = 100"], straces, "c20_sur")
     ctx.add_tlc(res, "Surrogate_Trace over %d histories" % len(straces))
     if res.violated or reached is None:
